@@ -22,7 +22,7 @@ def rebuild_for_replay(rec):
 def run(chk):
     exe = build()
     rows = ncases()
-    nlev = chk.pick(3, 6)              # (level, silent) cells: quick (0,off) (1,off) (1,on); thorough adds (3,off) (5,off) (0,on)
+    nlev = chk.pick(4, 7)              # (level, silent) cells: quick (0,off) (1,off) (1,on); thorough adds (3,off) (5,off) (0,on)
     cells = rows * nlev * 4            # x 4 integer-argument variants (rows without integer arguments run one)
     per = (cells + vf.NCPU - 1) // vf.NCPU
     chk.run('asan', exe, per, timeout=1200)
@@ -30,7 +30,7 @@ def run(chk):
                 'other arguments valid samples) x (runtime debug level, silent) cell; each runs in a forked child; oracle: documented failure value, '
                 'no allocation inside the call (ASan malloc hook), other arguments bit-identical (two-level heap snapshot), normal exit; at level >=1 '
                 'alternatively exit 255 with a FATAL diagnostic (no diagnostic required when output is silenced); integer arguments of the call take the variants '
-                '1, 0, -1, 7; distinct = distinct (row, level, silent, variant) cells; levels/silent: %s') % ('(0,off) (1,off) (1,on)' if nlev == 3 else '(0,off) (1,off) (1,on) (3,off) (5,off) (0,on)')
+                '1, 0, -1, 7; distinct = distinct (row, level, silent, variant) cells; levels/silent: %s') % ('(0,off) (1,off) (1,on) (5,off)' if nlev == 4 else '(0,off) (1,off) (1,on) (5,off) (2,off) (3,off) (0,on)')
     chk.exhaustive = True
     chk.cov['table_rows'] = rows
     chk.cov['levels'] = nlev
